@@ -141,3 +141,20 @@ Theorem C17_exp_lower_bound_one_dimension L nu c (ts : list qterm) ld0 c0 (us : 
   lb_value 1 L nu c ts ld0 c0 us <= vg.
 Proof. exact (C17_exp_lower_bound_1d L nu c ts ld0 c0 us). Qed.
 Print Assumptions C17_exp_lower_bound_one_dimension.
+
+(* ---- cosh-1 link, any input dimension (trunc/HetBoundIntC.v): sLB_cosh times the weight is a combination of THREE tilted Gaussians ---- *)
+From GT Require Import HetBoundIntC.
+Theorem C17_coshm1_bound_expectation_exists D L nu c (ts : list qterm) ld0 c0 (us : list unitaff) :
+  symR D L -> gpivR D L -> List.Forall (unit_ok_cosh D L) us ->
+  is_gint D (fun x => logp_lb sLB_cosh ldUB_cosh (q0_at D ts x) ld0 c0 (map (at_x D x) us) * exp (quadR D L nu x + c))
+            (lb_value_cosh D L nu c ts ld0 c0 us).
+Proof. exact (coshm1_bound_expectation_exists_ok D L nu c ts ld0 c0 us). Qed.
+Print Assumptions C17_coshm1_bound_expectation_exists.
+
+Theorem C17_coshm1_lower_bound_any_dimension D L nu c (ts : list qterm) ld0 c0 (us : list unitaff) :
+  symR D L -> gpivR D L -> List.Forall (unit_ok_cosh D L) us ->
+  forall vg : R,
+  is_gint D (fun x => logp link_coshm1 (q0_at D ts x) ld0 c0 (map (at_x D x) us) * exp (quadR D L nu x + c)) vg ->
+  lb_value_cosh D L nu c ts ld0 c0 us <= vg.
+Proof. exact (C17_coshm1_lower_bound_nd D L nu c ts ld0 c0 us). Qed.
+Print Assumptions C17_coshm1_lower_bound_any_dimension.
